@@ -12,6 +12,12 @@ from ..script import Case, gen_bytes
 BIG = sessions.BIGBUF
 
 
+def p256_negate(pub):
+    """(x, y) -> (x, p - y): a different valid public key with the same ECDH x-coordinate results"""
+    p = 0xFFFFFFFF00000001000000000000000000000000FFFFFFFFFFFFFFFFFFFFFFFF
+    return pub[:33] + (p - int.from_bytes(pub[33:65], "big")).to_bytes(32, "big")
+
+
 def flipbit(b, bit):
     v = bytearray(b)
     v[bit // 8] ^= 1 << (bit % 8)
@@ -76,10 +82,14 @@ class CheckC08(core.Check):
             items.append(("rs-of-initiator-other-key", {"rs": other.pub_r}, {}))
             if parsed.dh == "25519":
                 items.append(("rs-of-initiator-bit255", {"rs": flipbit(keys.pub_r, 255)}, {}))
+            else:
+                items.append(("rs-of-initiator-negated", {"rs": p256_negate(keys.pub_r)}, {}))
         if needs_remote_static(parsed.pattern, False):
             items.append(("rs-of-responder-other-key", {}, {"rs": other.pub_i}))
             if parsed.dh == "25519":
                 items.append(("rs-of-responder-bit255", {}, {"rs": flipbit(keys.pub_i, 255)}))
+            else:
+                items.append(("rs-of-responder-negated", {}, {"rs": p256_negate(keys.pub_i)}))
         if needs_remote_static(parsed.pattern, True):
             # the responder uses another static key than the one the initiator was given
             items.append(("s-of-responder-other-key", {}, {"s": other.s_r}))
@@ -101,7 +111,7 @@ class CheckC08(core.Check):
                 return "prologue"
             if label.startswith("psk"):
                 return label.split("-")[0]
-            return "static-r" if label in ("rs-of-initiator-other-key", "rs-of-initiator-bit255", "s-of-responder-other-key") else "static-i"
+            return "static-r" if label in ("rs-of-initiator-other-key", "rs-of-initiator-bit255", "rs-of-initiator-negated", "s-of-responder-other-key") else "static-i"
 
         singles = list(items)
         for _ in range(3):
